@@ -105,6 +105,14 @@ pub fn rfc_term(seed: u64, scn: &Value) -> Value {
             let env = Env::new().b("salt", &salt).b("ikm", &ikm).b("info", &info);
             (Evaluator::new(&env).eval(term), kestrel_crypto::hkdf_sha256(&salt, &ikm, &info, ju64(c, "len") as usize))
         }
+        "scrypt" => {
+            // RFC 7914 as a term over hmac_sha256 and the Salsa20/8 core (Scrypt7914.tla) vs the tree's scrypt()
+            let pw = rng.bytes(ju64(c, "pwlen") as usize);
+            let salt = rng.bytes(ju64(c, "saltlen") as usize);
+            let env = Env::new().b("pw", &pw).b("salt", &salt);
+            (Evaluator::new(&env).eval(term),
+             kestrel_crypto::scrypt(&pw, &salt, ju64(c, "n") as u32, ju64(c, "r") as u32, ju64(c, "p") as u32, ju64(c, "dklen") as usize))
+        }
         x => panic!("rfc kind {}", x),
     };
     let want = want.unwrap_or_else(|e| panic!("term evaluation: {:?}", e));
@@ -277,6 +285,7 @@ pub fn prim(scn: &Value) -> Value {
         "hkdf" => kestrel_crypto::hkdf_sha256(&a("salt"), &a("ikm"), &a("info"), ju64(scn, "len") as usize),
         "scrypt" => kestrel_crypto::scrypt(&a("password"), &a("salt"), ju64(scn, "n") as u32, ju64(scn, "r") as u32, ju64(scn, "p") as u32, ju64(scn, "len") as usize),
         "x25519" => kestrel_crypto::x25519(&a("k"), &a("u")).unwrap_or_default(),
+        "salsa20_8" => kestrel_crypto::verif_salsa20_8(&a("block")),
         "aead_seal" => kestrel_crypto::chapoly_encrypt_ietf(&a("key"), &a("nonce"), &a("pt"), &a("aad")),
         x => panic!("prim {}", x),
     }));
